@@ -171,7 +171,7 @@ def gen_radix(rng, be, n):
             return rng.range(1, 17)
         if c < 9:
             return rng.range(18, 40)
-        return rng.range(41, 50 - n.bit_length())
+        return rng.range(41, 52 - n.bit_length())        # n*2^(b-1) <= 2^50: b <= 48 (N=8), 47 (N=16), 46 (N=32)
     c = rng.below(10)
     if c < 4:
         return rng.range(1, 17)
